@@ -11,17 +11,18 @@ I12 == {"I1", "I3"}
 KL_one   == { <<"K1">> }
 KL_c08   == { <<"K1">>, <<"K7", "K1">> }
 C08Clients == {"K1", "K7"}
-KL_c04   == { <<"K1">>, <<"K4", "K1">>, <<>>, <<"KX", "K4", "K1">> }
-KL_c02   == { <<"K1">>, <<"K2", "K1">>, <<"K1b">>, <<"K4">>, <<"KX", "K1", "K4">>, <<"K4", "K1">> }
+KL_c04   == { <<"K1">>, <<"K4", "K1">>, <<>>, <<"KX", "K4", "K1">>, <<"KP", "K1">>, <<"K4", "KP">> }
+KL_c02   == { <<"K1">>, <<"K2", "K1">>, <<"K1b">>, <<"K4">>, <<"KX", "K1", "K4">>, <<"K4", "K1">>, <<"KP", "K1">> }
 \* every list of 1..N distinct keys from the pool
 Pool == {"K1", "K2", "K3", "K4", "K5", "K6", "KX"}
+KL_kp == { <<"KP", "K1">>, <<"K3", "KP", "K1">>, <<"K5", "K1", "KP">> }
 RECURSIVE Perms(_, _)
 Perms(S, k) == IF k = 0 THEN { <<>> } ELSE UNION { { <<x>> \o t : t \in Perms(S \ {x}, k - 1) } : x \in S }
 \* quick: every list of up to 3 keys, plus every order of the two 4-key sets whose members all share the config id and a suite
-KL_c09_3 == UNION { Perms(Pool, k) : k \in 1..3 } \cup Perms({"K1", "K2", "K6", "K3"}, 4) \cup Perms({"K1", "K2", "K6", "K5"}, 4)
+KL_c09_3 == KL_kp \cup UNION { Perms(Pool, k) : k \in 1..3 } \cup Perms({"K1", "K2", "K6", "K3"}, 4) \cup Perms({"K1", "K2", "K6", "K5"}, 4)
             \* one key pair held under an old and a new config with the same id
             \cup Perms({"K1b", "K1"}, 2) \cup Perms({"K1b", "K1", "K2"}, 3)
-KL_c09_4 == UNION { Perms(Pool, k) : k \in 1..4 }
+KL_c09_4 == KL_kp \cup UNION { Perms(Pool, k) : k \in 1..4 }
 
 FaultOps == {"none", "svOdd", "sniNameType", "sniTwoNames", "innerSvOdd", "innerSniNameType", "innerTypeNo13", "dupEchBefore", "dupEchInnerBefore", "dupEchAfter", "eoeInOuter", "innerTypeInOuter", "badEchType", "emptyEnc", "sniNotPublic", "sniKelvin", "noOuterSni", "noInnerEch", "outerTypeInInner",
              "innerNo13", "innerNoSv", "nonZeroPad", "eoeOdd", "eoeBadLen", "eoeNoData", "eoeEmptyList", "eoeOutOfOrder", "eoeRepeated", "eoeAmplify", "eoeMissing", "eoeRefsEch",
